@@ -265,6 +265,7 @@ class SyncHarness:
         self.grow_armed = None           # stage number the pending GROW event will apply
         self.steps = 0
         self._active = {}                # address -> number of live update_history coroutines
+        self._finished = {}              # address -> update_history coroutines finished inside the window
         self._past_hist = set()          # addresses whose sync got its history and has not saved yet
         self.loop = TLoop().activate()
         self._build()
@@ -306,11 +307,18 @@ class SyncHarness:
             n = h._active.get(address, 0)
             if n:
                 h.facts.add('same_address_updates_overlap')
+            if n >= 2:
+                h.facts.add('three_same_address_updates_overlap')
+            if n and h._finished.get(address):
+                # an update of this address already finished inside the window while a successor that was
+                # queued behind it is still alive: whatever the finished one released must still serve this one
+                h.facts.add('update_arrives_while_queued_successor_runs')
             h._active[address] = n + 1
             try:
                 return await orig_update(address, *a, **kw)
             finally:
                 h._active[address] -= 1
+                h._finished[address] = h._finished.get(address, 0) + 1
                 h._past_hist.discard(address)
 
         def save(txs, address, *a, **kw):
@@ -616,6 +624,7 @@ def prepare(spec, mode, stage, opts=None):
     h.loop.unretrieved()
     h.loop.exc_contexts.clear()
     h.facts.clear()
+    h._finished.clear()
     h.steps0, h.iter0 = h.steps, h.loop.iterations
     h.log.append('--- explored window')
     return h
